@@ -745,7 +745,8 @@ theorem derivativeAt_one_rounding (p : Array (Fl M)) (x : Fl M) (h : 2 ≤ p.siz
   obtain ⟨d, hd, hsz, hc⟩ := derivative_rounding p hne
   have hdne : d ≠ #[] := by intro e; subst e; simp at hsz; omega
   obtain ⟨r, hr, hb⟩ := eval_rounding d x hdne
-  refine ⟨r, by simp only [Poly.derivativeAt, Poly.derivativeN, bind, Except.bind, hd, hr], ?_⟩
+  have hdsz : ¬ d.size = 0 := by intro e; exact hdne (Array.eq_empty_of_size_eq_zero e)
+  refine ⟨r, by simp only [Poly.derivativeAt, Poly.derivativeN, bind, Except.bind, hd, hr, hdsz, if_false], ?_⟩
   have hsz2 : d.size - 1 = p.size - 2 := by omega
   rw [hsz2] at hb
   set n := p.size - 1 with hn
